@@ -683,7 +683,9 @@ func (b *backend) Put(w http.ResponseWriter, r *http.Request) error {
 		w.Header().Set("Last-Modified", ao.ModTime.UTC().Format(http.TimeFormat))
 	}
 	if ao.Path != "" {
-		w.Header().Set("Location", ao.Path)
+		// the object path is not URL-encoded
+		location := url.URL{Path: ao.Path}
+		w.Header().Set("Location", location.String())
 	}
 
 	// TODO: http.StatusNoContent if the resource already existed
